@@ -2,6 +2,7 @@
 use super::algo::{self, AlgoGen};
 use super::{Prop, Tier};
 use crate::core::case::*;
+use crate::core::rng::Rng;
 use crate::core::rt;
 use crate::gen::WeightRegime;
 use crate::oracle::close;
@@ -9,6 +10,14 @@ use crate::oracle::dist::DistOracle;
 use crate::pool;
 use crate::runner::Ctx;
 use graphrs::algorithms::centrality::betweenness::betweenness_centrality;
+
+trait Tap: Sized {
+    fn tap(mut self, f: impl FnOnce(&mut Self)) -> Self {
+        f(&mut self);
+        self
+    }
+}
+impl Tap for Case {}
 
 pub struct C05Prop;
 pub static C05: C05Prop = C05Prop;
@@ -34,8 +43,28 @@ impl Prop for C05Prop {
             shapes: None,
             lifecycle_pct: 30,
             keyings: 1,
+            boundary_per_mille: 0,
         }
         .gen("C05", seed, idx)
+        .tap(|case| {
+            if idx % 120 == 119 {
+                let mut wr = Rng::new(seed, "workload.diamonds");
+                let directed = idx / 120 % 2 == 0;
+                let regime = if idx / 240 % 2 == 0 { WeightRegime::AllNan } else { WeightRegime::SmallInt };
+                let (specs, ops) = crate::gen::gen_graph(&mut wr, &crate::gen::GraphOpts { directed, multi: false, self_loops: false, n_min: 196, n_max: 214, regime: if regime == WeightRegime::SmallInt { WeightRegime::AllNan } else { regime }, shape: Some(crate::gen::Shape::DiamondChain), sprinkle: false });
+                case.specs = specs;
+                case.ops = ops;
+                if regime == WeightRegime::SmallInt {
+                    // weight 1 everywhere: the weighted code path with the same exponential path counts
+                    for op in case.ops.iter_mut() {
+                        if let Op::AddEdge(e) = op {
+                            e.w = wbits(1.0);
+                        }
+                    }
+                }
+                case.params.put("shape", crate::core::json::J::s("diamond chain (> 2^64 shortest paths)"));
+            }
+        })
     }
     fn run_env(&self, case: &Case, env: &Env, cx: &mut Ctx) {
         let b = match algo::build(case, cx) {
